@@ -76,6 +76,7 @@ class Executor:
         self.feas_solver.set("timeout", 400)
         self.stats = {"paths": 0, "feas_checks": 0, "inlined": 0, "contract_calls": 0}
         self.assumed_contracts_used: set[str] = set()
+        self.contracts_used: set[str] = set()  # keys of every contract applied at a call site / attribute read (dependency closure)
         self.modular = True
         self.verifying: str | None = None
         self.born_clock: Any = 1
@@ -460,6 +461,7 @@ class Executor:
                 if k is None and kind == "property":
                     k = self.find_contract(decl, None)
                 if k is not None:
+                    self.contracts_used.add(k.key)
                     ctx = Ctx(self, {"self": obj}, "assume", s2)
                     ctx.result = v
                     for cl in k.ensures:
